@@ -82,10 +82,12 @@ def worker(ctx):
                 if vs not in used:
                     fs['feats'][i]['id'] = vs; used.add(vs)
                     fs['feat_version'] = 2
-            if draw(st.booleans()) and all(l['tag'] != v for l in fs['langs']):
+            # languages likewise: 1 in 4 stored space padded by the font (seed S7-C20 looked a language up as given before normalising it)
+            vl = pad(t, b' ') if draw(st.integers(0, 3)) == 0 else v
+            if draw(st.booleans()) and all(l['tag'] != vl for l in fs['langs']):
                 f = fs['feats'][draw(st.integers(0, len(fs['feats']) - 1))]
                 val = f['settings'][-1][0] if f['settings'] else 7
-                fs['langs'].append(dict(tag=v, settings=[[f['id'], val & 0xFFFF]]))
+                fs['langs'].append(dict(tag=vl, settings=[[f['id'], val & 0xFFFF]]))
         return dict(kind='padding', fspec=fs, tags=[t.hex() for t in short], scripts=[pad(t, b'\0') for t in short[:2]])
 
     def make(deco):
